@@ -216,6 +216,12 @@ func BytesEq(a, b []byte) bool { return string(a) == string(b) }
 // engine (natively frames are read from the peer; nil here).
 func WSFrames(ws any) []string { return nil }
 
+// WSReader registers the function the engine's ReadMessage model asks for the
+// next incoming frame of a connection: state 0 = frame, 1 = nothing to read
+// yet (the reader blocks), 2 = closed by the peer. Natively the harness writes
+// to the peer socket instead.
+func WSReader(ws any, fn func() ([]byte, int)) {}
+
 // WSClosed reports whether Close was called on the connection (engine only).
 func WSClosed(ws any) bool { return false }
 
